@@ -291,6 +291,23 @@ def _event_loop(env, kind):
     COUNT[0] = 0
     if kind == 'not':
         c0 = CNot('c0', on_output=ev).connect('i0')           # i0 := not i0 for ever
+    elif kind == 'not-chain':
+        # two combinational blocks before the event closes the loop: i0 := c1 = c0 = not i0
+        edzed.FuncBlock('c1', func=ident, on_output=ev).connect('c0')
+        c0 = CNot('c0').connect('i0')
+        kind = 'not'
+    elif kind in ('not-two-inputs', 'ident-two-inputs'):
+        # the loop runs through two sequential blocks and two events: i1 := c0 = [not] i0 ; i0 := c1 = i1
+        edzed.Input('i1', initdef=0)
+        ev1 = edzed.Event('i1', 'put', efilter=edzed.not_from_undef)
+        edzed.FuncBlock('c1', func=ident, on_output=ev).connect('i1')
+        if kind == 'not-two-inputs':
+            # events fire on CHANGES only: a flip of i0 may be absorbed (i1 keeps an equal value) and the circuit is
+            # then quiescent - nothing to report; only the evaluation bound is claimed for this one
+            c0 = CNot('c0', on_output=ev1).connect('i0')
+            kind = 'bound-only'
+        else:
+            c0 = edzed.FuncBlock('c0', func=ident, on_output=ev1).connect('i0')
     else:
         c0 = edzed.FuncBlock('c0', func=ident, on_output=ev).connect('i0')    # i0 := i0 settles
     drv.start()
@@ -307,7 +324,9 @@ def _event_loop(env, kind):
     unstable = isinstance(err, edzed.EdzedCircuitError) and 'instability' in str(err)
     env.check('eval-bound', COUNT[0] <= limit, info=lambda: (COUNT[0], limit))
     flipped = bool(inp.output) != bool(v) if False else None
-    if kind == 'not':
+    if kind == 'bound-only':
+        env.check('event-loop-quiet', err is None or unstable, info=lambda: err)
+    elif kind == 'not':
         # i0 := not i0 whenever c0 changes: once the input's truth value has been flipped from outside
         # the loop can never become consistent again
         if state_flip[0]:
@@ -358,6 +377,6 @@ def shards(tier):
         out.append({'name': f'acyclic {name}', 'scenario': 'scen_acyclic',
                     'params': {'name': name, 'order_budget': (3 if tier == 'quick' else 8) if name != 'glitch3' else
                                (1 if tier == 'quick' else 3)}, 'cost': 50})
-    for k in ('not', 'id'):
+    for k in ('not', 'id', 'not-chain', 'not-two-inputs', 'ident-two-inputs'):
         out.append({'name': f'event loop {k}', 'scenario': 'scen_event_loop', 'params': {'kind': k}})
     return out
